@@ -465,6 +465,26 @@ pub fn run(args: &Args) -> ! {
             }
         }
     }
+    // large reply values: below, at and above 64 KiB and 1 MiB, as the only reply and inside a stream
+    for size in [65_000usize, 65_536, 70_000, 300_000, 1_100_000] {
+        for more in [false, true] {
+            let blob = "b".repeat(size);
+            let c = Case {
+                more,
+                conts: if more { vec![Some(json!({"blob": blob, "i": 0})), Some(json!({"i": 1}))] } else { vec![] },
+                fin: Final::Ok(Some(json!({"blob": blob, "nested": {"list": [1, 2, 3]}}))),
+                addr_form: (size % 3) as u8,
+                color: size % 2 == 0,
+                args: Some(json!({"size": size})),
+            };
+            counter.set(counter.get() + 1);
+            ctx.case(Some(hash64(&("large", size, more))));
+            ctx.class("large-reply-values");
+            if let Err(f) = pt::guard(|| run_case(&c, &scratch.path, counter.get())) {
+                ctx.violation(&f.key, &f.what, "c20", json!({"large_reply_bytes": size, "more": more}));
+            }
+        }
+    }
     let cases = ctx.tier.pick(1_500, 20_000);
     let r = pt::check_with(&mut ctx, "c20", cases, 150, 120_000, case_strategy(), |ctx, c| {
         counter.set(counter.get() + 1);
